@@ -5,20 +5,35 @@ open ReadMulti Drv
 def hexVal (c : UInt8) : UInt8 :=
   if c ≥ 48 && c ≤ 57 then c - 48 else if c ≥ 97 && c ≤ 102 then c - 87 else 0
 
-def unhex (s : String) : List UInt8 := Id.run do
+def unhexArr (s : String) : Array UInt8 := Id.run do
   let b := s.toUTF8
   let mut out : Array UInt8 := Array.mkEmpty (b.size / 2)
   let mut i := 0
   while i + 1 < b.size do
     out := out.push (hexVal b[i]! * 16 + hexVal b[i+1]!)
     i := i + 2
+  return out
+
+/-- the stream field of an op: segments separated by '.', each HEX or HEX*COUNT -/
+def unhex (s : String) : List UInt8 := Id.run do
+  let mut out : Array UInt8 := #[]
+  for seg in s.splitOn "." do
+    match seg.splitOn "*" with
+    | [h] => out := out ++ unhexArr h
+    | [h, n] =>
+      let b := unhexArr h
+      for _ in [0:n.toNat!] do
+        out := out ++ b
+    | _ => pure ()
   return out.toList
 
 /-- base.BufReadline: U+2029 (e2 80 a9) becomes a newline inside the line that was read -/
-def paraSep : List UInt8 → List UInt8
-  | 0xe2 :: 0x80 :: 0xa9 :: rest => 10 :: paraSep rest
-  | c :: rest => c :: paraSep rest
-  | [] => []
+def paraSepAux : List UInt8 → Array UInt8 → Array UInt8
+  | 0xe2 :: 0x80 :: 0xa9 :: rest, acc => paraSepAux rest (acc.push 10)
+  | c :: rest, acc => paraSepAux rest (acc.push c)
+  | [], acc => acc
+
+def paraSep (l : List UInt8) : List UInt8 := (paraSepAux l #[]).toList
 
 /-- lines as a Readline delivers them: split after every '\n'; an unterminated last line comes with EOF -/
 partial def splitReads (bs : List UInt8) (cur : Array UInt8) (acc : Array Read) : Array Read :=
@@ -47,7 +62,8 @@ def stepC26 (_ : Unit) (line : String) : Unit × String :=
     let src := unhex hex
     let optAll := (opts.toNat!) / 2 % 2 == 1
     let reads := (splitReads src #[] #[]).toList.map fun rd =>
-      if mode == "B" then { rd with line := paraSep rd.line } else rd
+      -- every mode other than L is the real BufReadline (over differently sized / short-reading readers)
+      if mode != "L" then { rd with line := paraSep rd.line } else rd
     let chunks := readAll optAll (src.length + 3) reads
     let parts := chunks.map fun c => s!"{c.bytes.length}:{c.firstToken}:{showErr c.err} "
     let all := chunks.foldl (fun a c => a ++ c.bytes) []
